@@ -27,7 +27,11 @@ RULE = (
     "surrogate escapes, NUL, 70000-char text, empty lists) is forced into the first record of a sequence under rotating "
     "configurations; plus the same-name family: 2-3 descriptors that share their NAME but not their field list (a field kept with another "
     "type, disjoint fields, reordered, superset, prefix), interleaved in every order of length 2-4 (130 orders, the same for "
-    "every seed) under the read-back, the fallback and one indented configuration; the rest are random mixes.  Oracle: (a) the raw text splits into standalone documents with "
+    "every seed) under the read-back, the fallback and one indented configuration; the identifier-coincident family: 2-3 descriptors with "
+    "the same name AND the same 32-bit identifier hash but different field lists (adjacent fields (t1,n1),(t2,n2) merged into "
+    "(t2, n1+t1+n2)), same interleavings plus A A B B A B, through ONE writer; the grouped family: GroupedRecords of 1-3 "
+    "members sharing some field names, distinct metadata per member, expected = the flat view computed from the members "
+    "(first member wins a shared name; first member's metadata; record name = group name); the rest are random mixes.  Oracle: (a) the raw text splits into standalone documents with "
     "json.JSONDecoder.raw_decode, each accepted by a strict RFC 8259 parser (NaN/Infinity tokens refused, duplicate keys "
     "refused) - one document per line without indent, multi-line documents indented by the requested width with indent; "
     "(b) the record documents correspond 1:1, in order, to the records written, their keys are the record's fields in "
@@ -49,6 +53,8 @@ ASSUMPTIONS = [
     "and through the plain-JSON fallback reader (the statement says 'the same scalar JSON values')",
     "jq (when /usr/bin/jq exists) is run on a sample of files as a second standard parser for document boundaries and key "
     "order; its absence is recorded, not judged; jq 1.6 itself accepts NaN/Infinity tokens so it is not the strictness oracle",
+    "grouped records: member field names never equal a GroupedRecord attribute (name, records, descriptors, flat_fields, "
+    "fieldname_to_record), which would shadow the member field (C15's finding); members are plain records, not nested groups",
     "values come from the pools in verif/gen.py (lone surrogates outside U+DC80-DCFF and sub-second UTC offsets are not generated)",
 ]
 SHARDS = {"quick": 8, "thorough": 16}
@@ -176,6 +182,98 @@ def build_same_name(seed, k, order):
     return [b.record(descs[i]) for i in order], modes
 
 
+MERGEABLE = [t for t in SUPPORTED_SCALARS if t.isidentifier()]  # type names that may become part of a field name
+GROUP_ATTRS = ("name", "records", "descriptors", "flat_fields", "fieldname_to_record")
+
+
+def build_coincident(seed, k, order):
+    """Records of `k` descriptors with the same name AND the same 32-bit identifier hash but different field lists.
+    The hash input is the plain concatenation name + (fieldname + fieldtype)..., so merging two adjacent fields
+    (t1, n1), (t2, n2) into (t2, n1 + t1 + n2) keeps it.  -> (records, None) or (None, reason) when the tree under test
+    does not give the variants one identifier (then the family has nothing to say)."""
+    from flow.record import RecordDescriptor
+
+    rng = random.Random(seed)
+    b = JBuilder(rng, thorough=False, max_depth=0)
+    name = gen.rand_typename(rng)
+    n = rng.randint(k, 4)
+    types = [rng.choice(MERGEABLE) for _ in range(n - 1)] + [rng.choice(SUPPORTED)]
+    letters = "abcdefghijkmnpqrstuvwxyz"
+    names = []
+    while len(names) < n:
+        x = rng.choice(letters) + rng.choice(["", rng.choice(letters), "_" + rng.choice(letters)])
+        if x not in names and not gen.keyword_like(x):
+            names.append(x)
+    base = list(zip(types, names))
+
+    def merge(fl, p):
+        return fl[:p] + [(fl[p + 1][0], fl[p][1] + fl[p][0] + fl[p + 1][1])] + fl[p + 2:]
+
+    lists = [base, merge(base, rng.randrange(n - 1))]
+    if k == 3:
+        third = merge(lists[1], rng.randrange(len(lists[1]) - 1)) if rng.random() < 0.5 else None
+        if third is None or third in lists:
+            for p in range(n - 1):
+                third = merge(base, p)
+                if third not in lists:
+                    break
+        lists.append(third)
+    if len({tuple(fl) for fl in lists}) != k:
+        return None, "variants not distinct"
+    descs = [RecordDescriptor(name, fl) for fl in lists]
+    if len({d.identifier for d in descs}) != 1:
+        return None, "identifiers differ on this tree"
+    return [b.record(descs[i]) for i in order], None
+
+
+def expected_flat(gname, members):
+    """Observation of the FLAT view of a grouped record, computed from the members themselves: fields in first-seen
+    order, a shared field name takes the first member's type and value, metadata are the first member's."""
+    fields, values = [], {}
+    for m in members:
+        mo = observe.obs(m)
+        sl = observe.slots_of(mo)
+        for t, n in mo[2]:
+            if n not in values:
+                values[n] = sl[n]
+                fields.append([t, n])
+    first = observe.slots_of(observe.obs(members[0]))
+    slots = [[n, values[n]] for _, n in fields] + [[k, first[k]] for k in META_KEYS]
+    return observe.normalise(["rec", str(gname), fields, slots])
+
+
+def build_grouped(seed):
+    """1-4 records, most of them GroupedRecords of 1-3 members over the JSON-supported types; members share some field
+    names (with other values and sometimes other types) and carry distinct metadata.  -> (records, expected observations)"""
+    import datetime as _dt
+
+    from flow.record import GroupedRecord, RecordDescriptor
+
+    rng = random.Random(seed)
+    b = JBuilder(rng, thorough=False, max_depth=0)
+    pool = gen.unique_names(rng, 7, avoid=GROUP_ATTRS)
+    records, expected = [], []
+    for _ in range(rng.choice([1, 2, 3, 4])):
+        if rng.random() < 0.2:
+            r = b.record(b.descriptor(nfields=rng.randint(0, 4), types=SUPPORTED, allow_keyword=False))
+            records.append(r)
+            expected.append(observe.normalise(observe.obs(r)))
+            continue
+        members = []
+        for i in range(rng.randint(1, 3)):
+            fnames = rng.sample(pool, rng.randint(1, 4))
+            d = RecordDescriptor(gen.rand_typename(rng), [(rng.choice(SUPPORTED), fn) for fn in fnames])
+            m = b.record(d)
+            m._source = "member%d-source" % i
+            m._classification = "class%d" % i
+            m._generated = _dt.datetime(2001 + i, 2, 3, 4, 5, 6, 7 + i, tzinfo=_dt.timezone.utc)
+            members.append(m)
+        gname = gen.rand_typename(rng)
+        expected.append(expected_flat(gname, members))
+        records.append(GroupedRecord(gname, members))
+    return records, expected
+
+
 def cells():
     return [(t, vc) for t in SUPPORTED for vc in gen.classes_for(t)]
 
@@ -218,6 +316,19 @@ def generate(ctx):
                     yield {"k": "same", "kk": k, "order": order, "cfg": cfg, "via": ("uri", "path", "pathl")[(j + rep) % 3],
                            "s": subseed("c14", ctx.seed, "same", k, tuple(order), rep)}
                 idx += 1
+    # identifier-coincident family: same name AND same hash, different field lists, every interleaving (+ A A B B A B)
+    idx = 0
+    for rep in range(ctx.scale(1, 6)):
+        for j, (k, order) in enumerate(same_name_orders() + [(2, [0, 0, 1, 1, 0, 1]), (3, [0, 0, 1, 1, 2, 0, 1, 2])]):
+            for cfg in (0, 3, (1, 2, 4, 5)[(j + rep) % 4]):
+                if ctx.mine(idx + 2):
+                    yield {"k": "coin", "kk": k, "order": order, "cfg": cfg, "via": ("uri", "path", "pathl")[(j + rep + 1) % 3],
+                           "s": subseed("c14", ctx.seed, "coin", k, tuple(order), rep)}
+                idx += 1
+    # grouped records: stored as their flat view
+    for i in range(ctx.scale(30, 150)):
+        yield {"k": "group", "cfg": (0, 3, 0, 3, (1, 2, 4, 5)[i % 4])[(i + ctx.shard) % 5], "via": ("uri", "path", "pathl")[i % 3],
+               "s": subseed("c14", ctx.seed, "group", ctx.shard, i)}
     nmix = ctx.scale(150, 700)
     for i in range(nmix):
         yield {"k": "mix", "cfg": (i + ctx.shard) % len(CONFIGS), "via": ("uri", "path", "pathl")[i % 3],
@@ -415,15 +526,25 @@ def execute(ctx, case):
     # JSON has no length classes (unlike msgpack): the 1 MiB strings / 65536-element lists of gen's thorough mode add
     # nothing here, so both tiers use the quick-size pools (70000-char strings, 3000-element lists); thorough = more cases
     modes = None
+    written = None
     if case["k"] == "same":
         records, modes = build_same_name(case["s"], case["kk"], case["order"])
+    elif case["k"] == "coin":
+        records, why = build_coincident(case["s"], case["kk"], case["order"])
+        if records is None:
+            ctx.event("coincident_family_skipped:" + why)
+            return
+    elif case["k"] == "group":
+        records, written = build_grouped(case["s"])
     else:
         records = build_sequence(case["s"], thorough=False, focus=focus)
     ctx.ev()
     cfgname = "desc=%s/indent=%s" % ("on" if descriptors else "off", indent)
     for r in records:
         observe.assert_typed(r, "written")
-    written = [observe.normalise(observe.obs(r)) for r in records]
+    snapshot = [observe.obs(r) for r in records]
+    if written is None:
+        written = [observe.normalise(o) for o in snapshot]
     try:
         path, how = write_records(ctx, case, records, descriptors, indent)
     except Exception as e:  # noqa: BLE001 - every generated record is within the supported class
@@ -433,7 +554,7 @@ def execute(ctx, case):
     try:
         with open(path, "r", encoding="utf-8", newline="") as f:
             text = f.read()
-        if [observe.normalise(observe.obs(r)) for r in records] != written:
+        if [observe.obs(r) for r in records] != snapshot:
             ctx.violation(None, "writing to JSON mutated the record", detail={"config": cfgname})
         ok = check_text(ctx, case, records, written, text, descriptors, indent, cfgname, how)
         if ctx.state["jq"] and ok and ctx.evaluations % 4 == 0:
@@ -450,6 +571,13 @@ def execute(ctx, case):
     ctx.event("config:" + cfgname)
     ctx.event("via:" + case["via"])
     ctx.event("records_written", len(records))
+    if case["k"] == "coin":
+        ctx.event("coincident_sequences")
+        ctx.cell("coincident", "k=%d" % case["kk"], "len=%d" % len(case["order"]), cfgname)
+    if case["k"] == "group":
+        ctx.event("grouped_sequences")
+        ctx.event("grouped_records_written", sum(1 for o in snapshot if o[0] == "grouped"))
+        ctx.cell("grouped", cfgname)
     if modes is not None:
         ctx.event("same_name_sequences")
         ctx.cell("same-name", "k=%d" % case["kk"], "len=%d" % len(case["order"]), cfgname)
@@ -541,18 +669,36 @@ def check_text(ctx, case, records, written, text, descriptors, indent, cfgname, 
         ctx.violation(None, "%d records written but %d record documents in the output" % (len(records), len(rec_docs)), detail=base)
         return True
     if descriptors:
-        # every record document is preceded by a descriptor document carrying its name and field list
+        # every record document is preceded by a descriptor document carrying its name and field list; and the LATEST
+        # preceding descriptor document with the record's identifier (name + reference hash of the field list, computed
+        # independently of the library) is that one - otherwise a reader working line by line rebuilds the record with
+        # another field list (identifier-coincident descriptors in one file)
+        from ..refcodec import descriptor_hash
+
         seen = []
+        latest = {}
         oi = 0
         for (k, val), w in zip(rec_docs, written):
             while oi < len(other) and other[oi][0] < k:
-                seen.append(other[oi][1].get("_data"))
+                data = other[oi][1].get("_data")
+                seen.append(data)
+                try:
+                    latest[(data[0], descriptor_hash(data[0], [(t, n) for t, n in data[1]]))] = data
+                except Exception:  # noqa: BLE001 - malformed descriptor document: reported above
+                    pass
                 oi += 1
             want = [w[1], w[2]]
             if want not in seen:
                 ctx.violation(None, "a record document is not preceded by a document with its record descriptor",
                               detail=dict(base, descriptor=want, seen=seen[:5]))
                 break
+            marker = val.get("_recorddescriptor")
+            if isinstance(marker, list) and len(marker) == 2 and isinstance(marker[0], str) and (marker[0], marker[1]) in latest:
+                ctx.event("descriptor_in_force_checked")
+                if latest[(marker[0], marker[1])] != want:
+                    ctx.violation(None, "the descriptor document in force for a record document's identifier is another descriptor's",
+                                  detail=dict(base, descriptor=want, in_force=latest[(marker[0], marker[1])], identifier=marker))
+                    break
 
     for (k, val), r, w in zip(rec_docs, records, written):
         ctx.event("record_documents_checked")
@@ -778,6 +924,9 @@ def finish(ctx):
         ctx.note("matrix_cells_expected", len(cells()))
         ctx.note("same_name_orders_enumerated_per_configuration", len(same_name_orders()))
         ctx.require(ctx.events.get("same_name_sequences", 0) > 0, "no same-name descriptor sequence was run")
+        ctx.require(ctx.events.get("coincident_sequences", 0) > 0, "no identifier-coincident descriptor sequence was run "
+                    "(the variants did not share an identifier on this tree)")
+        ctx.require(ctx.events.get("grouped_records_written", 0) > 0, "no grouped record was written")
     if ctx.evaluations:
         for q in ANCHORS[:5]:
             ctx.require(ctx.reach.get(q, 0) > 0, "anchor %s was never entered" % q)
